@@ -139,3 +139,208 @@ pub fn open_forever() {
 }
 
 pub fn counters() -> Counters { GATE.m.lock().unwrap().c }
+
+// ---------------------------------------------------------------------------
+// Step mode: every pipeline step is an explicit action of the simulation.
+// ---------------------------------------------------------------------------
+
+#[derive(Clone, Copy, Debug, PartialEq, Eq, Hash, PartialOrd, Ord)]
+pub enum Stage {
+    Serialize,
+    Commit,
+    AfterCommit,
+}
+
+struct StepState {
+    enabled: bool,
+    drain: bool,
+    n_ser: u64,
+    parked: Vec<(Stage, u64)>,
+    allowed: Vec<(Stage, u64)>,
+    done: Vec<(Stage, u64)>,
+    submitted: u64,
+    serialized: u64,
+    commit_got: u64,
+    commit_processed: u64,
+    ac_sent: u64,
+    ac_done: u64,
+    created: u64,
+}
+
+pub struct StepGate {
+    m: Mutex<StepState>,
+    cv: Condvar,
+}
+
+pub static STEP: StepGate = StepGate {
+    m: Mutex::new(StepState {
+        enabled: false,
+        drain: false,
+        n_ser: 1,
+        parked: Vec::new(),
+        allowed: Vec::new(),
+        done: Vec::new(),
+        submitted: 0,
+        serialized: 0,
+        commit_got: 0,
+        commit_processed: 0,
+        ac_sent: 0,
+        ac_done: 0,
+        created: 0,
+    }),
+    cv: Condvar::new(),
+};
+
+thread_local! {
+    static HOLDING: std::cell::Cell<Option<(Stage, u64)>> = const { std::cell::Cell::new(None) };
+}
+
+/// Start of a write-behind instance under step control.
+pub fn step_reset(n_ser: usize) {
+    let mut g = STEP.m.lock().unwrap();
+    g.enabled = true;
+    g.drain = false;
+    g.n_ser = n_ser as u64;
+    g.parked.clear();
+    g.allowed.clear();
+    g.done.clear();
+    g.submitted = 0;
+    g.serialized = 0;
+    g.commit_got = 0;
+    g.commit_processed = 0;
+    g.ac_sent = 0;
+    g.ac_done = 0;
+    g.created = 0;
+}
+
+pub fn step_disable() {
+    let mut g = STEP.m.lock().unwrap();
+    g.enabled = false;
+    g.drain = true;
+    drop(g);
+    STEP.cv.notify_all();
+}
+
+pub fn step_event(site: &'static str, a: u64, _b: u64) {
+    if !site.starts_with("wb_") {
+        return;
+    }
+    let mut g = STEP.m.lock().unwrap();
+    if !g.enabled && !g.drain {
+        return;
+    }
+    match site {
+        "wb_created" => g.created += 1,
+        "wb_submit" => g.submitted += 1,
+        "wb_ser_got" => HOLDING.with(|h| h.set(Some((Stage::Serialize, a)))),
+        "wb_commit_got" => {
+            g.commit_got += 1;
+            HOLDING.with(|h| h.set(Some((Stage::Commit, a))));
+        }
+        "wb_ac_got" => HOLDING.with(|h| h.set(Some((Stage::AfterCommit, a)))),
+        "wb_serialized" => {
+            g.serialized += 1;
+            g.done.push((Stage::Serialize, a));
+        }
+        "wb_commit_processed" => {
+            g.commit_processed += 1;
+            g.done.push((Stage::Commit, a));
+        }
+        "wb_ac_sent" => g.ac_sent += 1,
+        "wb_ac_done" => {
+            g.ac_done += 1;
+            g.done.push((Stage::AfterCommit, a));
+        }
+        "wb_shutdown_begin" => g.drain = true,
+        _ => {}
+    }
+    drop(g);
+    STEP.cv.notify_all();
+}
+
+pub fn step_thread_point(site: &'static str) {
+    if !site.starts_with("wb_") {
+        return;
+    }
+    let Some(me) = HOLDING.with(std::cell::Cell::get) else { return };
+    let mut g = STEP.m.lock().unwrap();
+    if !g.enabled || g.drain {
+        return;
+    }
+    g.parked.push(me);
+    STEP.cv.notify_all();
+    loop {
+        if g.drain {
+            g.parked.retain(|p| *p != me);
+            return;
+        }
+        if let Some(pos) = g.allowed.iter().position(|p| *p == me) {
+            g.allowed.remove(pos);
+            g.parked.retain(|p| *p != me);
+            return;
+        }
+        g = STEP.cv.wait(g).unwrap();
+    }
+}
+
+fn settled(g: &StepState) -> bool {
+    let parked = |st: Stage| g.parked.iter().filter(|p| p.0 == st).count() as u64;
+    let ser_in_flight = g.submitted - g.serialized;
+    let commit_in_flight = g.serialized - g.commit_processed;
+    let ac_in_flight = g.ac_sent - g.ac_done;
+    parked(Stage::Serialize) == ser_in_flight.min(g.n_ser)
+        && parked(Stage::Commit) == commit_in_flight.min(1)
+        && parked(Stage::AfterCommit) == ac_in_flight.min(1)
+}
+
+/// The steps the pipeline could take now (waits until every worker that is
+/// going to receive a pending message has parked at its gate).
+pub fn step_available() -> Vec<(Stage, u64)> {
+    let mut g = STEP.m.lock().unwrap();
+    while !settled(&g) {
+        g = STEP.cv.wait(g).unwrap();
+    }
+    let mut v = g.parked.clone();
+    v.sort();
+    v
+}
+
+/// Let one parked worker perform its step and wait until it has finished.
+pub fn step_run(stage: Stage, epoch: u64) {
+    let mut g = STEP.m.lock().unwrap();
+    assert!(g.parked.contains(&(stage, epoch)), "step_run: {stage:?} {epoch} is not parked");
+    g.allowed.push((stage, epoch));
+    STEP.cv.notify_all();
+    loop {
+        if let Some(pos) = g.done.iter().position(|p| *p == (stage, epoch)) {
+            g.done.remove(pos);
+            break;
+        }
+        g = STEP.cv.wait(g).unwrap();
+    }
+    // let the follow-up arrivals settle before anything else is decided
+    while !settled(&g) {
+        g = STEP.cv.wait(g).unwrap();
+    }
+}
+
+pub struct StepCounters {
+    pub created: u64,
+    pub submitted: u64,
+    pub serialized: u64,
+    pub commit_processed: u64,
+    pub ac_sent: u64,
+    pub ac_done: u64,
+}
+
+pub fn step_counters() -> StepCounters {
+    let g = STEP.m.lock().unwrap();
+    StepCounters {
+        created: g.created,
+        submitted: g.submitted,
+        serialized: g.serialized,
+        commit_processed: g.commit_processed,
+        ac_sent: g.ac_sent,
+        ac_done: g.ac_done,
+    }
+}
